@@ -10,7 +10,6 @@ package engbrt
 import (
 	"encoding/json"
 	"fmt"
-	"io"
 	"os"
 	"runtime"
 	"strings"
@@ -29,7 +28,7 @@ type Parser struct {
 	Translate func(c int) int
 	Trace     func(on bool)
 	ErrAcc    func() (int, int)
-	SetHooks  func(next func() (int, int), rec func(int))
+	SetHooks  func(next func(int) (int, int), rec func(int))
 }
 
 var registry = map[string]*Parser{}
@@ -75,6 +74,7 @@ type Rec struct {
 }
 
 type ParseResult struct {
+	InHash  string      `json:"in,omitempty"` // hash of the semantic values the parser passed INTO the lexer at each call
 	Outcome string      `json:"o"` // accept | syntax | nilret | other | budget | lexpanic
 	Msg     string      `json:"m,omitempty"`
 	Recs    []Rec       `json:"recs,omitempty"`
@@ -106,6 +106,7 @@ type budgetPanic struct{}
 type lexPanic struct{ at int }
 
 type env struct {
+	inHash  uint64 // hash of the values the parser handed to the lexer
 	feed    *Feed
 	fetched int
 	recs    []Rec
@@ -116,7 +117,9 @@ type env struct {
 
 var cur *env // the environment of the running parse (exactly one goroutine runs at a time)
 
-func hookNext() (int, int) {
+func hookNext(incoming int) (int, int) {
+	atomic.StoreInt64(&lastHook, time.Now().UnixNano())
+	cur.inHash = (cur.inHash ^ uint64(uint32(incoming))) * 1099511628211
 	e := cur
 	e.steps++
 	if e.steps > e.budget {
@@ -140,6 +143,7 @@ func hookNext() (int, int) {
 }
 
 func hookRec(r int) {
+	atomic.StoreInt64(&lastHook, time.Now().UnixNano())
 	e := cur
 	e.steps++
 	if e.steps > e.budget {
@@ -160,6 +164,7 @@ func runParse(p *Parser, c interface{}, e *env) (res ParseResult) {
 		endParse()
 		res.Recs = e.recs
 		res.Fetched = e.fetched
+		res.InHash = fmt.Sprintf("%x", e.inHash)
 		if x := recover(); x != nil {
 			switch v := x.(type) {
 			case budgetPanic:
@@ -190,33 +195,6 @@ func runParse(p *Parser, c interface{}, e *env) (res ParseResult) {
 	return
 }
 
-func withTrace(p *Parser, on bool, f func()) string {
-	if !on {
-		f()
-		return ""
-	}
-	tmp, err := os.CreateTemp("", "trace")
-	if err != nil {
-		f()
-		return "TRACE-CAPTURE-FAILED"
-	}
-	defer os.Remove(tmp.Name())
-	old := os.Stdout
-	os.Stdout = tmp
-	p.Trace(true)
-	func() {
-		defer func() {
-			p.Trace(false)
-			os.Stdout = old
-		}()
-		f()
-	}()
-	tmp.Seek(0, 0)
-	b, _ := io.ReadAll(tmp)
-	tmp.Close()
-	return string(b)
-}
-
 func fresh(p *Parser) interface{} {
 	if p.Object {
 		return p.New()
@@ -233,23 +211,55 @@ var (
 	outPath     string
 )
 
-func beginParse() { atomic.StoreInt64(&parseStart, time.Now().UnixNano()) }
-func endParse()   { atomic.StoreInt64(&parseStart, 0) }
+var (
+	parseSeq int64 // incremented at the start of every parse
+	lastHook int64 // unix nano of the last GetToken / action call
+	writing  int32 // set by whoever writes the results file first
+)
 
+func beginParse() {
+	now := time.Now().UnixNano()
+	atomic.StoreInt64(&lastHook, now)
+	atomic.AddInt64(&parseSeq, 1)
+	atomic.StoreInt64(&parseStart, now)
+}
+func endParse() { atomic.StoreInt64(&parseStart, 0) }
+
+// watchdog: a parse that neither requests a token nor runs an action for 300 ms while the heap grows by more than
+// 200 MB (or for 5 s at all) is a driver loop that spins on its own (e.g. reducing by a rule that does not exist):
+// the step budget cannot see it. The partial results are written and the process exits with status 3.
 func watchdog() {
 	var ms runtime.MemStats
+	var seenSeq int64 = -1
+	var baseline uint64
 	for {
 		time.Sleep(50 * time.Millisecond)
-		st := atomic.LoadInt64(&parseStart)
-		if st == 0 {
+		if atomic.LoadInt64(&parseStart) == 0 {
+			continue
+		}
+		seq := atomic.LoadInt64(&parseSeq)
+		if seq != seenSeq {
+			runtime.ReadMemStats(&ms)
+			seenSeq, baseline = seq, ms.HeapAlloc
+			continue
+		}
+		idle := time.Now().UnixNano() - atomic.LoadInt64(&lastHook)
+		if idle < int64(300*time.Millisecond) {
 			continue
 		}
 		runtime.ReadMemStats(&ms)
-		if ms.HeapAlloc > 400<<20 || time.Now().UnixNano()-st > int64(4*time.Second) {
+		grown := int64(ms.HeapAlloc) - int64(baseline)
+		if grown > 200<<20 || idle > int64(5*time.Second) {
+			if atomic.LoadInt64(&parseSeq) != seq || atomic.LoadInt64(&parseStart) == 0 {
+				continue // the parse ended meanwhile
+			}
+			if !atomic.CompareAndSwapInt32(&writing, 0, 1) {
+				return
+			}
 			r := curResult
 			if r != nil {
 				r.Diverged = len(r.Parses)
-				r.Parses = append(r.Parses, ParseResult{Outcome: "diverge", Msg: fmt.Sprintf("no token requested and no action run; heap %d MB", ms.HeapAlloc>>20)})
+				r.Parses = append(r.Parses, ParseResult{Outcome: "diverge", Msg: fmt.Sprintf("no token requested and no action run for %d ms; heap grew by %d MB", idle/1e6, grown>>20)})
 				doneResults = append(doneResults, r)
 			}
 			ob, err := json.Marshal(doneResults)
@@ -284,16 +294,36 @@ func runJob(j *Job) *JobResult {
 	}
 	switch j.Kind {
 	case "parses":
+		var tmp *os.File
+		var off int64
+		if j.Trace {
+			if t, err := os.CreateTemp("", "trace"); err == nil {
+				tmp = t
+				old := os.Stdout
+				os.Stdout = tmp
+				p.Trace(true)
+				defer func() {
+					p.Trace(false)
+					os.Stdout = old
+					tmp.Close()
+					os.Remove(tmp.Name())
+				}()
+			}
+		}
 		for i := range j.Feeds {
 			f := &j.Feeds[i]
-			var pr ParseResult
-			tr := withTrace(p, j.Trace, func() {
-				c := fresh(p)
-				e := &env{feed: f, budget: budgetOf(f)}
-				cur = e
-				pr = runParse(p, c, e)
-			})
-			pr.Trace = tr
+			c := fresh(p)
+			e := &env{feed: f, budget: budgetOf(f)}
+			cur = e
+			pr := runParse(p, c, e)
+			if tmp != nil {
+				if st, err := tmp.Stat(); err == nil && st.Size() > off {
+					buf := make([]byte, st.Size()-off)
+					tmp.ReadAt(buf, off)
+					off = st.Size()
+					pr.Trace = string(buf)
+				}
+			}
 			r.Parses = append(r.Parses, pr)
 		}
 	case "history":
@@ -356,7 +386,29 @@ func (r *rng) intn(n int) int {
 	return int(r.next() % uint64(n))
 }
 
+// trace capture while interleaving: every task flushes what was printed since the last flush into its own buffer
+// before it hands control back, so each chunk is attributed to the context that produced it
+var (
+	traceFile *os.File
+	traceOff  int64
+)
+
+func flushTrace(t *task) {
+	if traceFile == nil {
+		return
+	}
+	st, err := traceFile.Stat()
+	if err != nil || st.Size() <= traceOff {
+		return
+	}
+	buf := make([]byte, st.Size()-traceOff)
+	traceFile.ReadAt(buf, traceOff)
+	traceOff = st.Size()
+	t.traceBuf += string(buf)
+}
+
 type task struct {
+	traceBuf string
 	id       int
 	resume   chan struct{}
 	yielded  chan int // kind of yield point; -1 = finished
@@ -369,6 +421,22 @@ func runInterleaved(p *Parser, j *Job, r *JobResult, budgetOf func(*Feed) int) {
 	if !p.Object {
 		r.Err = "interleave needs an object-mode parser"
 		return
+	}
+	if j.Trace {
+		tmp, err := os.CreateTemp("", "itrace")
+		if err == nil {
+			defer os.Remove(tmp.Name())
+			old := os.Stdout
+			os.Stdout = tmp
+			traceFile, traceOff = tmp, 0
+			p.Trace(true)
+			defer func() {
+				p.Trace(false)
+				os.Stdout = old
+				traceFile = nil
+				tmp.Close()
+			}()
+		}
 	}
 	n := len(j.Ctxs)
 	tasks := make([]*task, n)
@@ -395,7 +463,10 @@ func runInterleaved(p *Parser, j *Job, r *JobResult, budgetOf func(*Feed) int) {
 					}
 					t.env = e
 					cur = e
-					t.results = append(t.results, runParse(p, c, e))
+					pr := runParse(p, c, e)
+					flushTrace(t)
+					pr.Trace, t.traceBuf = t.traceBuf, ""
+					t.results = append(t.results, pr)
 				}
 			}
 			t.finished = true
@@ -437,6 +508,10 @@ func runInterleaved(p *Parser, j *Job, r *JobResult, budgetOf func(*Feed) int) {
 				pick = last
 			}
 		}
+		if pick != last && last >= 0 {
+			// control moves to another context: what was printed since the last flush belongs to the one that ran
+			flushTrace(tasks[last])
+		}
 		t := tasks[pick]
 		r.Schedule = append(r.Schedule, pick)
 		if t.env != nil {
@@ -474,6 +549,9 @@ func Main() {
 		doneResults = append(doneResults, r)
 	}
 	curResult = nil
+	if !atomic.CompareAndSwapInt32(&writing, 0, 1) {
+		select {} // the watchdog is writing and will exit
+	}
 	ob, err := json.Marshal(doneResults)
 	if err != nil {
 		fmt.Fprintln(os.Stderr, err)
